@@ -23,3 +23,12 @@ package signaling_rpc
 //@ iface SRPCSignaling_SessionStream.Send ensures forall x iface :: x != recv ==> sessAnnounced[x] == old(sessAnnounced[x])
 //@ iface SRPCSignaling_SessionStream.Recv writes none
 //@ iface SRPCSignaling_SessionStream.Context pure
+
+// ---- C19: what a client may accept ----
+// authenticFrom(m, who): m carries a signature that verifies, under the key embedded in the sender
+// ID it carries, over its data in the session-message signing context, and that sender ID is `who`
+// (as base58 text).
+//@ spec fun authenticFrom(m *SessionMsg, who string) bool = m != nil && m.SignedMsg != nil && b58ok(m.SignedMsg.FromPeerId) && b58enc(b58dec(m.SignedMsg.FromPeerId)) == who && m.SignedMsg.Signature != nil && edVerify(pubKeyFromPB(mhDigest(b58dec(m.SignedMsg.FromPeerId))), signBody("bifrost/signaling/rpc session msg 2024-06-05T02:45:07.208906Z", m.SignedMsg.Signature.HashType, digest(m.SignedMsg.Signature.HashType, m.SignedMsg.Data)), m.SignedMsg.Signature.SigData)
+// boundTo(m, dest): the signature of m also covers the peer it was submitted for. Nothing in the
+// message format provides this (see the known finding for C19).
+//@ spec fun boundTo(m *SessionMsg, dest string) bool
